@@ -30,6 +30,23 @@ var repoDir = "/repo"
 
 var replayTemplates = []*replayTemplate{
 	{
+		name: "ws_listener_listen_race.go.tmpl",
+		match: func(o *Obligation) bool {
+			if !(o.Kind == "guard.read" || o.Kind == "guard.write") || !strings.HasPrefix(o.Func, "(*transport/ws.listener).") {
+				return false
+			}
+			for _, f := range []string{":listener.listener", ":listener.bound", ":listener.anon", ":listener.noserve", ":listener.htsvr"} {
+				if strings.Contains(o.Name, f) {
+					return true
+				}
+			}
+			return false
+		},
+		run: func(g *Gen, o *Obligation, model map[string]string) (bool, string) {
+			return runReplayArgs("transport/ws", "ws_listener_listen_race.go.tmpl", map[string]string{}, "TestZZReplayWsListenerListenRace", "-race")
+		},
+	},
+	{
 		name: "tcp_listener_listen_race.go.tmpl",
 		match: func(o *Obligation) bool {
 			return (o.Kind == "guard.read" || o.Kind == "guard.write") && strings.HasPrefix(o.Func, "(*transport/tcp.listener).") && (strings.Contains(o.Name, ":listener.l") && !strings.Contains(o.Name, ":listener.lc") || strings.Contains(o.Name, ":listener.bound"))
